@@ -44,6 +44,7 @@ class SessGen:
         r = self.rng
         x = r.random()
         if not self.live or x < 0.08: self.new_writer()
+        elif self.nsrc == 0: self.nsrc += 1; self.ops.append('as:%d:%d' % (r.randrange(8), r.choice(SEVS))); self.bump('add_source')
         elif x < 0.16: self.nsrc += 1; self.ops.append('as:%d:%d' % (r.randrange(8), r.choice(SEVS))); self.bump('add_source')
         elif x < 0.20: self.ops.append('cs:%d:%d:%d:%d:%s' % (r.randrange(1 << 30), r.choice([1, 10**9, 3 * 10**9]), r.randrange(1 << 40), r.choice([0, 3600, 2**32 - 3600]), r.choice([b'UTC', b'CET']).hex())); self.bump('clock_sync')
         elif x < 0.25: w = r.choice(self.live); self.ops.append(r.choice(['id:%d:%d' % (w, r.randrange(100)), 'nm:%d:%s' % (w, (b'n%d' % r.randrange(9)).hex())])); self.bump('rename')
